@@ -124,6 +124,15 @@ def run(ctx):
             L = rng.randrange(1, 7)
             bad_at = rng.randrange(L) if rng.random() < 0.6 else None
             gates = [c06.rand_any_gate(rng, n, us, bad=(k == bad_at)) for k in range(L)]
+            # parametric gates given directly as enum variants: 0, 1 or several targets, in range
+            for _ in range(rng.choice([0, 0, 1, 2])):
+                kind = rng.choice(["RX", "RY", "RZ", "P", "RyPhase", "RyPhaseDag", "Match"])
+                m = rng.choice([0, 1, 1, 2])
+                pool = list(range(n if kind != "Match" else max(n - 1, 0)))
+                ts = rng.sample(pool, min(m, len(pool)))
+                rest = [q for q in range(n) if q not in ts and (kind != "Match" or all(q != t + 1 for t in ts))]
+                gates.insert(rng.randrange(len(gates) + 1), {"g": "param", "kind": kind, "vals": [float2bits(rng.uniform(-3, 3)) for _ in range(3)], "ts": ts,
+                                                             "cs": rng.sample(rest, rng.randrange(0, min(2, len(rest)) + 1))})
             nm = sum(1 for g in gates if g["g"] == "meas")
             ccases.append({"op": "circuit", "mode": "exec", "n": n, "cn": n if rng.random() < 0.8 else n + rng.choice([1, 2]), "v": rand_vec(rng, n, "normalised"),
                            "gates": gates, "draws": [float2bits(0.37)] * nm, "split": 0, "thr": rng.choice([10, 1])})
